@@ -18,6 +18,8 @@
 //! constants have no derivatives; 71 derivatives_for outside the shape is None; 72-75 the
 //! AsRecords iterators (len / size_hint / fused / with_index, row and column major,
 //! try_get_as_record outside the size); map_with_index closures assert the index they receive.
+//! Iterator SHAPES (crate::shapes, notes/ITERS.md): 6100 / 6130 / 6160 + shape from_iters / from_iter
+//! through every iterator shape of the same rows; 6200 + shape AsRecords::from over shaped sources.
 mod recops;
 
 use crate::guarded;
@@ -619,9 +621,107 @@ where
     Some((ops.len(), Status::Ok(env)))
 }
 
+// ---- iterator SHAPES at from_iter / from_iters (crate::shapes, notes/ITERS.md) ----
+thread_local! {
+    /// code of the first shape check that failed in the current case (0 = none)
+    static SHAPE_FAIL: std::cell::Cell<i64> = const { std::cell::Cell::new(0) };
+}
+fn shape_fail(code: i64) {
+    SHAPE_FAIL.with(|c| {
+        if c.get() == 0 {
+            c.set(code)
+        }
+    });
+}
+
+/// a collected container as comparable data: lengths, identity of its history, elements in
+/// row-major order - or the error class
+#[derive(PartialEq)]
+enum Flat<T> {
+    Ok(Vec<usize>, usize, Vec<(T, Index)>),
+    Err(i64),
+}
+fn hist_id<T>(h: Option<&WengertList<T>>) -> usize {
+    h.map_or(0, |h| h as *const WengertList<T> as usize)
+}
+fn flat_ten<'a, T: Real + Primitive + Clone + 'static, const D: usize>(r: Result<&Ten<'a, T, D>, i64>) -> Flat<T> {
+    match r {
+        Ok(y) => Flat::Ok(y.shape().iter().map(|d| d.1).collect(), hist_id(y.history()), y.view().iter().collect()),
+        Err(c) => Flat::Err(c),
+    }
+}
+fn flat_mat<'a, T: Real + Primitive + Clone + 'static>(r: Result<&Mat<'a, T>, i64>) -> Flat<T> {
+    match r {
+        Ok(y) => Flat::Ok(vec![y.rows(), y.columns()], hist_id(y.history()), y.view().row_major_iter().collect()),
+        Err(c) => Flat::Err(c),
+    }
+}
+
+/// The rows that were handed to from_iters::<N> (or, N = 1, from_iter) through the exact-size
+/// iterator gave `canon`; the SAME rows (already evaluated: nothing is appended to a tape) handed
+/// over through every other iterator shape must give the same N results.  Both entry points are
+/// run for N = 1.  Codes: 6100 + shape from_iters, 6130 + shape from_iter.  Lying hints: both entry
+/// points size a Vec from the LOWER bound (from_iters: `Vec::with_capacity(size_hint().0)`, even
+/// for an empty stream; from_iter: `collect()`), so shapes 12 / 15 (lower bound usize::MAX) panic
+/// with "capacity overflow"; for those the requirement is "canonical or a panic" (6160 + shape);
+/// the lying shapes with small bounds are compared like honest ones.
+fn collect_shapes<'a, T, const D: usize, const N: usize>(
+    tensor: bool,
+    shape: &[(usize, usize)],
+    rows: &[[Record<'a, T>; N]],
+    key: u64,
+    canon: &[Flat<T>],
+) where
+    T: Real + Primitive + Clone + PartialEq + 'static,
+{
+    use crate::shapes::{self, with_shape};
+    let flats_n = |shape_no: u8| -> Option<Vec<Flat<T>>> {
+        with_shape!(shape_no, rows.to_vec(), |it| guarded(|| {
+            if tensor {
+                RecordTensor::from_iters::<_, N>(shape_arr::<D>(shape), it)
+                    .iter()
+                    .map(|r| flat_ten(r.as_ref().map_err(|e| iter_err(e.clone()))))
+                    .collect()
+            } else {
+                RecordMatrix::from_iters::<_, N>((shape[0].1, shape[1].1), it)
+                    .iter()
+                    .map(|r| flat_mat(r.as_ref().map_err(|e| iter_err(e.clone()))))
+                    .collect()
+            }
+        }))
+    };
+    let flats_1 = |shape_no: u8| -> Option<Vec<Flat<T>>> {
+        let singles: Vec<Record<'a, T>> = rows.iter().map(|row| row[0].clone()).collect();
+        with_shape!(shape_no, singles, |it| guarded(|| {
+            if tensor {
+                vec![flat_ten(RecordTensor::from_iter(shape_arr::<D>(shape), it).as_ref().map_err(|e| iter_err(e.clone())))]
+            } else {
+                vec![flat_mat(RecordMatrix::from_iter((shape[0].1, shape[1].1), it).as_ref().map_err(|e| iter_err(e.clone())))]
+            }
+        }))
+    };
+    let mut plan = shapes::plan(key, &shapes::LYING_SMALL);
+    plan.push(0);
+    if key % 7 == 0 {
+        plan.extend([12u8, 15]);
+    }
+    for shape_no in plan {
+        let acceptable = |r: Option<Vec<Flat<T>>>| match r {
+            Some(v) => v[..] == canon[..],
+            None => shapes::lower_is_max(shape_no),
+        };
+        if !acceptable(flats_n(shape_no)) {
+            return shape_fail(if shapes::lower_is_max(shape_no) { 6160 } else { 6100 } + shape_no as i64);
+        }
+        if N == 1 && !acceptable(flats_1(shape_no)) {
+            return shape_fail(if shapes::lower_is_max(shape_no) { 6160 } else { 6130 } + shape_no as i64);
+        }
+    }
+}
+
 /// from_iters::<N> over the first `take` records, closure k producing output k (for N = 1 the
 /// odd forms use from_iter instead: both must agree); every failing output is reported
-fn run_collect<'a, T: Real + Primitive + Clone + 'static, const D: usize, const N: usize>(
+fn run_collect<'a, T: Real + Primitive + Clone + PartialEq + 'static, const D: usize, const N: usize>(
     tensor: bool,
     shape: &[(usize, usize)],
     take: usize,
@@ -640,6 +740,9 @@ where
         let row: [Record<'a, T>; N] = std::array::from_fn(|k| eval::<T>(&es[k], &r, fl, form, other));
         row
     });
+    // every row handed over is also logged, for the iterator-shape runs below
+    let log: std::cell::RefCell<Vec<[Record<'a, T>; N]>> = std::cell::RefCell::new(Vec::new());
+    let rows = rows.inspect(|row| log.borrow_mut().push(row.clone()));
     let single = N == 1 && form % 2 == 1;
     let results: Vec<Result<CObj<'a, T, D>, i64>> = if tensor {
         if single {
@@ -662,6 +765,23 @@ where
             .map(|r| r.map(CObj::Mat).map_err(iter_err))
             .collect()
     };
+    {
+        let canon: Vec<Flat<T>> = results
+            .iter()
+            .map(|r| match r {
+                Ok(CObj::Ten(y)) => flat_ten(Ok(y)),
+                Ok(CObj::Mat(y)) => flat_mat(Ok(y)),
+                Ok(_) => Flat::Err(-1),
+                Err(c) => Flat::Err(*c),
+            })
+            .collect();
+        let logged = log.into_inner();
+        let key = ((N as u64) * 7 + (form as u64) * 3)
+            .wrapping_add((take as u64).wrapping_mul(31))
+            .wrapping_add(logged.first().map_or(0, |row| row[0].index as u64))
+            .wrapping_add(shape.iter().fold(0u64, |h, d| h.wrapping_mul(5).wrapping_add(d.1 as u64)));
+        collect_shapes::<T, D, N>(tensor, shape, &logged, key, &canon);
+    }
     if results.iter().all(|r| r.is_ok()) {
         Ok(results.into_iter().map(|r| r.ok().unwrap()).collect())
     } else {
@@ -789,6 +909,39 @@ where
                     || c.iter_as_records().with_index().len() != data.len()
                 {
                     return Err(73);
+                }
+            }
+            // AsRecords::from over an arbitrary iterator of (number, index) pairs - every iterator
+            // SHAPE (crate::shapes), lying hints included: the adaptor yields exactly the wrapped
+            // items as records of the given history, stops where the wrapped iterator stops, and its
+            // size_hint IS the wrapped iterator's (code 6200 + shape).  (from_with_index only
+            // constructs: its result is not an Iterator and a caller outside the crate cannot wrap
+            // it in WithIndex, so nothing further is observable.)
+            {
+                use easy_ml::differentiation::iterators::AsRecords;
+                let key = data.len() as u64 * 5 + data.first().map_or(0, |p| p.1 as u64) + form as u64;
+                let mut plan = crate::shapes::plan(key, &crate::shapes::LYING);
+                plan.push(0);
+                for shape_no in plan {
+                    let fine = crate::shapes::with_shape!(shape_no, data.clone(), |it| {
+                        let hint = it.size_hint();
+                        let records = AsRecords::from(c.history(), it);
+                        let forwarded = records.size_hint() == hint;
+                        // (pushed one by one: `collect` would itself trust a lying lower bound)
+                        let mut got: Vec<Record<'a, T>> = Vec::new();
+                        for r in records {
+                            got.push(r);
+                        }
+                        forwarded
+                            && got.len() == data.len()
+                            && got.iter().zip(data.iter()).all(|(r, p)| {
+                                r.number == p.0 && r.index == p.1 && same_history(r.history(), c.history())
+                            })
+                    });
+                    let _ = AsRecords::from_with_index(c.history(), data.iter().cloned().enumerate());
+                    if !fine {
+                        return Err(6200 + shape_no as i64);
+                    }
                 }
             }
             let derivs = match c.history() {
@@ -1291,7 +1444,12 @@ where
         let list = WengertList::new();
         let other_list = WengertList::new();
         let other = Record::variable(T::one(), &other_list);
+        SHAPE_FAIL.with(|c| c.set(0));
         let Some((n, st)) = c_pass::<T, D>(&list, &other, &ops, form) else { return bad_case() };
+        let shape_code = SHAPE_FAIL.with(|c| c.get());
+        if shape_code != 0 {
+            return inconsistent(shape_code);
+        }
         let mut oracle = vec![];
         let printed = match &st {
             Status::Ok(env) => {
